@@ -52,6 +52,14 @@ claim("C02", "proof", "class-specialised value numbering of every decoder + bit-
       "Trusted: ref/decode_reference.json (hand-written from the specifications); C04's read template. Derived accessors are evaluated on all 2^8 / 2^16 inputs of the term, not of the crate's code.",
       "DESIGN.md 5/C02")
 
+claim("C16", "proof", "ranking-argument rule over natural loops and iterator bodies (acyclic path enumeration + monotone-cursor order reasoning), call-graph acyclicity",
+      "Every cycle of the slice parser has a ranking argument: no recursion; each of the 9 loops is a for over a bounded iterator or a counter loop with an invariant bound; "
+      "each of the 7 in-crate Iterator::next bodies is loop-free and on every yielding path a cursor strictly increases through a successful bounded parse, or the declared "
+      "count strictly decreases (and the offset strictly increases while it stays non-zero). Hence at most len(data) items, resp. at most `count` records.",
+      "Trusted: core slice/range iterators and Iterator::find/position terminate; C02/C04 (a successful parse consumes >= 1 byte and fails at the end of the buffer). "
+      "The wall-clock clause ('seconds') is not decided.",
+      "DESIGN.md 5/C16")
+
 for pid in ["C01", "C02", "C03", "C04", "C05", "C06", "C07", "C08", "C09", "C10", "C11", "C12", "C13", "C14", "C15", "C16", "C17", "C18", "C20"]:
     if pid not in CLAIMS:
         na(pid, "static rule designed (DESIGN.md section 5) but its checker is not built yet in this revision; not claimed until it runs silent on the tree and fires on control mutants")
